@@ -258,7 +258,32 @@ func CheckRoundTrip(t *rapid.T, spec ProtoSpec, rec *Rec) {
 	if rrw.Consumed() != len(frame) {
 		t.Fatalf("%s: Unpack consumed %d of %d frame bytes", spec.Name, rrw.Consumed(), len(frame))
 	}
-	_ = psize
+	// the size limit is inclusive: under a limit equal to the message's size (as the packing
+	// and the unpacking side report it) the very same frame still round-trips
+	limit := psize
+	if got.Size() > limit {
+		limit = got.Size()
+	}
+	if limit > 0 {
+		socket.SetMessageSizeLimit(limit)
+		again := spec.receiver()
+		var lerr error
+		func() {
+			defer func() {
+				if p := recover(); p != nil {
+					lerr = fmt.Errorf("panic: %v", p)
+				}
+			}()
+			lerr = spec.Fn()(&RW{In: frame}).Unpack(again)
+		}()
+		socket.SetMessageSizeLimit(0)
+		if lerr != nil {
+			t.Fatalf("%s: a message of size %d (pack side) / %d (unpack side) was refused under a message size limit of %d: %v\nmsg=%v", spec.Name, psize, got.Size(), limit, lerr, m.Sample())
+		}
+		if d := m.Compare(again, spec.cmpOpts(m)); d != "" {
+			t.Fatalf("%s: round trip under a size limit equal to the message size differs: %s", spec.Name, d)
+		}
+	}
 }
 
 func CheckStream(t *rapid.T, spec ProtoSpec, rec *Rec) {
